@@ -265,10 +265,10 @@ def check_features(ctx, fi, block, total):
         return isinstance(s.target, ast.Tuple) and len(s.target.elts) == 4 and all(isinstance(e, ast.Name) for e in s.target.elts)
     be = BlockEval(where, loop_ok)
     be.run(stmts)
-    loops = getattr(be, 'loops_done', [])
+    loops = be.loops_done
     if len(loops) != 1:
         raise AnalysisError('%s: loop over (Q, y, noise, proj) measurements not found' % where)
-    loop, entry = loops[0]
+    loop, entry = loops[0][0], loops[0][1]
     Q, y, noise, proj = [e.id for e in loop.target.elts]
     if not be.events:
         raise AnalysisError('%s: no accumulator is grown inside the measurement loop' % where)
